@@ -214,6 +214,33 @@ CLAIMS = {
 NOT_APPLICABLE = {}
 
 
+# clauses added after the first version of each check (seeded rounds c and d, refactoring probes); appended to the level text
+EXTRA = {
+    "C01": "Added: a miss in one lookup tier always goes on to a later tier (no return without this tier's own hit); the literal-prefix "
+           "pre-filter in front of each regexp call is evaluated abstractly under 'path begins with start' (equal length / longer) and may "
+           "not give the candidate up; literal-space fields (path, start, a read spath, table key, URL template) never receive regex-escaped text.",
+    "C02": "Added: the parameter map gets an entry for every variable of the route on every iteration (a variable of an unmatched optional "
+           "part maps to the empty string, it is not missing).",
+    "C03": "Added: the pooled context is fully re-initialised (C10-RESET runs here too).",
+    "C04": "Added: what module callers pass as 'new middleware' to a function that appends it after the route's own list never derives from "
+           "the router's or a route's own lists (group/global middleware cannot end up inside the route's middleware); the cached copy of a "
+           "route carries its middleware list (C07-COPY).",
+    "C07": "Added: the cache may be filled through the wrapper or in line; every successful regexp match reaches a fill or a configuration-only "
+           "'caching off' decision before it returns; a field-wise cached copy must copy every observable field.",
+    "C08": "Added: every path from the underlying Write to a return adds the accepted byte count to length.",
+    "C12": "Added: every Route field that registration derives from route.path is derived after the group prefix was applied and the path "
+           "normalised.",
+    "C13": "Added: the default method replaces only an absent method list; isFixedPath's own definition; checkAndParseOptional evaluated "
+           "abstractly on bracket profiles (a ']' outside the trailing run, or an unclosed '[', always panics; well-formed profiles return).",
+    "C15": "Added: the URL builder keeps no state derived from its own settings that can go stale (or only as a keyed memo); ToURL's template is "
+           "a pattern field and literal-space; the dispatcher matches on the request's own (decoded or escaped) path.",
+    "C17": "Added: where the route pattern carries the extension filter, the handler hands the matched {file} variable to the file server.",
+    "C18": "Added: an error found non-nil is returned (or wrapped) on every path, never followed by another result; the decoder receives the "
+           "caller's values unmodified.",
+    "C20": "Added: every alternative of the override value (form field and header) is upper-cased before the whitelist comparison unless known empty.",
+}
+
+
 def main():
     props = [json.loads(l) for l in open(os.path.join(HERE, "properties.jsonl")) if l.strip()]
     checks, na = [], []
@@ -221,6 +248,8 @@ def main():
         pid = p["id"]
         if pid in CLAIMS:
             tech, text, note, ref = CLAIMS[pid]
+            if pid in EXTRA:
+                text = text + " " + EXTRA[pid]
             checks.append({
                 "property_id": pid,
                 "quick_cmd": f"./check {pid} quick",
